@@ -27,6 +27,7 @@ import SF.Cbor.Parse
 import SF.Proofs.CborCollect
 import SF.Proofs.CborChunkTop
 import SF.Proofs.JsonParseTop
+import SF.Proofs.UbjChunkTop
 namespace SF.Props.C02
 open SF SF.Cbor SF.Cbor.Parse
 
@@ -124,3 +125,75 @@ theorem json_chunk_independent (failAt : Option Nat) (cs1 cs2 : List Bytes) (h :
   SF.Json.ParseTop.json_chunk_independent failAt cs1 cs2 h
 
 end SF.PropsJson.C02
+
+
+/-! ## UBJSON parser (proofs SF/Proofs/UbjChunk{Collect,SplitA,SplitB,SplitC,Run,Top}.lean)
+
+The mirror's `feedUntil` carries a FUEL per call (`8·|chunk| + 2000000` iterations; the Go loop has
+none), so different chunkings get different budgets: with a typed array of a million payload-free
+elements one run can exhaust it and the other not (both directions evaluated in
+SF/Proofs/UbjChunkTop.lean).  The theorems therefore carry the side condition "neither run
+exhausted the model's fuel", which `ubj_chunk_independent_small` replaces by a decidable bound on
+the outcome (fewer than 10^6 events + bytes).  Everything else is unconditional: every byte
+string, every chunking, every visitor fault index, every reachable state. -/
+
+namespace SF.PropsUbjP.C02
+open SF SF.Ubjson SF.Ubjson.Parse SF.Ubjson.Chunk
+
+/-- C02 for the UBJSON parser: for EVERY byte string and EVERY chunking (empty chunks allowed),
+with ANY visitor fault index `k`: `Write` per chunk + end of input (`ParseReader`) = `Parse` of
+the concatenation — same events, same verdict (the same error value), and when no error is
+reported the same final parser state; unless the model's fuel runs out -/
+theorem ubj_chunk_independent (k : Option Nat) (cs : List Bytes)
+    (h1 : (writeChunks (init k) cs).2 ≠ some .outOfFuel) (h2 : (parse (init k) cs.flatten).2 ≠ some .outOfFuel) :
+    (writeChunks (init k) cs).1.evs = (parse (init k) cs.flatten).1.evs ∧
+    (writeChunks (init k) cs).2 = (parse (init k) cs.flatten).2 ∧
+    ((writeChunks (init k) cs).2 = none → (writeChunks (init k) cs).1 = (parse (init k) cs.flatten).1) :=
+  SF.Props.UbjChunk.ubj_chunk_independent k cs h1 h2
+
+/-- … with a DECIDABLE side condition on the two outcomes instead: each run delivered fewer than
+`1000000 - |input|` events -/
+theorem ubj_chunk_independent_small (k : Option Nat) (cs : List Bytes)
+    (h1 : (writeChunks (init k) cs).1.evs.length + cs.flatten.length < 1000000)
+    (h2 : (parse (init k) cs.flatten).1.evs.length + cs.flatten.length < 1000000) :
+    (writeChunks (init k) cs).1.evs = (parse (init k) cs.flatten).1.evs ∧
+    (writeChunks (init k) cs).2 = (parse (init k) cs.flatten).2 :=
+  SF.Props.UbjChunk.ubj_chunk_independent_small k cs h1 h2
+
+/-- … hence any two chunkings of the same bytes are indistinguishable -/
+theorem ubj_chunkings_agree (k : Option Nat) (cs₁ cs₂ : List Bytes) (h : cs₁.flatten = cs₂.flatten)
+    (h1 : (writeChunks (init k) cs₁).2 ≠ some .outOfFuel) (h2 : (writeChunks (init k) cs₂).2 ≠ some .outOfFuel)
+    (h3 : (parse (init k) cs₁.flatten).2 ≠ some .outOfFuel) :
+    (writeChunks (init k) cs₁).1.evs = (writeChunks (init k) cs₂).1.evs ∧
+    (writeChunks (init k) cs₁).2 = (writeChunks (init k) cs₂).2 :=
+  SF.Props.UbjChunk.ubj_chunkings_agree k cs₁ cs₂ h h1 h2 h3
+
+/-- C02 from EVERY REACHABLE STATE (`Reach`: a fresh parser after any successful `Write` calls —
+mid-document, inside any nesting, a partially received token parked in the buffer or a length
+marker pending): the rest of the stream may be chunked in any way -/
+theorem ubj_chunk_independent_reach (p : P) (h : SF.Props.UbjChunk.Reach p) (cs : List Bytes)
+    (h1 : (writeChunks p cs).2 ≠ some .outOfFuel) (h2 : (parse p cs.flatten).2 ≠ some .outOfFuel) :
+    (writeChunks p cs).1.evs = (parse p cs.flatten).1.evs ∧
+    (writeChunks p cs).2 = (parse p cs.flatten).2 ∧
+    ((writeChunks p cs).2 = none → (writeChunks p cs).1 = (parse p cs.flatten).1) :=
+  SF.Props.UbjChunk.ubj_chunk_independent_reach p h cs h1 h2
+
+/-- the fuel-free core: the resumption law of `collect` (how a token split over reads is
+reassembled) for every buffer content, no precondition -/
+theorem ubj_collect_resume (buf a b : Bytes) (n : Nat) :
+    collect buf (a ++ b) n =
+      match collect buf a n with
+      | (buf1, rest1, some t) => (buf1, rest1 ++ b, some t)
+      | (buf1, _, none) => collect buf1 b n :=
+  SF.Props.UbjChunk.collect_resume buf a b n
+
+/-- non-vacuity: `{#i1 i1 "a" [$i#i2 1 2` (a typed array inside a counted object) cut at EVERY
+position and fed byte by byte with empty chunks in between; the fuel hypotheses hold -/
+example : (SF.Props.UbjChunk.cuts SF.Props.UbjChunk.doc).all
+      (fun cs => decide (writeChunks {} cs = parse {} SF.Props.UbjChunk.doc)) = true ∧
+    (SF.Props.UbjChunk.cuts SF.Props.UbjChunk.doc).all
+      (fun cs => decide ((writeChunks (init none) cs).2 ≠ some .outOfFuel)) = true ∧
+    (parse {} SF.Props.UbjChunk.doc).2 = none := by
+  decide +kernel
+
+end SF.PropsUbjP.C02
